@@ -451,6 +451,8 @@ func (w *ssWorld[E]) exec(r failer, f []string) string {
 	switch f[0] {
 	case "new":
 		return "ok"
+	case "window":
+		return ssWindow(r)
 	case "add":
 		w.set.Add(E(atoi(f[1])))
 	case "del":
